@@ -29,6 +29,11 @@ def check(run):
                 nres += resid_range(run, m)
         run.floor('ACC.pair', 'accumulators in binary.rs + reg.rs', nacc, 57)
         run.floor('RESID.range', 'residual recomputation loops', nres, 3)
+    if run.tier == 'thorough':
+        import casrules
+        run.rule('CAS.form', casrules.RULE)
+        n = casrules.check_rolling(run, run.facts('base'), ('binary.rs', 'reg.rs'))
+        run.floor('CAS.form', 'closed forms compared with their reference', n, 12)
     return run.finish(
         'other',
         'Structural necessary conditions: every accumulator of the 13 covariance / correlation '
